@@ -43,7 +43,7 @@ var c08Msgs = func() [][]byte {
 	return append(msgs, bad1, bad2, bad3)
 }()
 
-var c08DecodeNames = []string{"Decode(data,m)", "Write", "UnmarshalBinary", "ReadFrom", "CloneTo"}
+var c08DecodeNames = []string{"Decode(data,m)", "Write", "UnmarshalBinary", "ReadFrom", "CloneTo", "ReadFrom(segmented stream: 20 | 10 | rest)"}
 
 // c08Setters: each entry builds the setter list from caller-owned buffers and
 // returns the buffers so that the caller can overwrite them afterwards.
@@ -96,6 +96,23 @@ func c08UseName(u int) string {
 	return fmt.Sprintf("Build(list%d)", u-nd)
 }
 
+// segReader delivers its data in pieces of 20, 10 and the rest (a stream transport); then (0, nil).
+type segReader struct {
+	d   []byte
+	off int
+	n   int
+}
+
+func (r *segReader) Read(p []byte) (int, error) {
+	sizes := []int{20, 10, 1 << 20}
+	sz := sizes[min(r.n, 2)]
+	r.n++
+	end := min(r.off+sz, len(r.d))
+	k := copy(p, r.d[r.off:end])
+	r.off += k
+	return k, nil
+}
+
 type reusableReader struct{ d []byte }
 
 func (r *reusableReader) Read(p []byte) (int, error) { return copy(p, r.d), nil }
@@ -135,6 +152,11 @@ func c08Apply(m *stun.Message, u int, poison byte) error {
 	case 4:
 		src := &stun.Message{Raw: data}
 		err = src.CloneTo(m)
+	case 5:
+		if cap(m.Raw) < len(data) {
+			m.Raw = make([]byte, 0, len(data)+7)
+		}
+		_, err = m.ReadFrom(&segReader{d: data})
 	}
 	scribble(data)
 	return err
@@ -223,11 +245,11 @@ func c08Run(k c08Case) (outcome, key, detail string) {
 					return
 				}
 				nd := len(c08DecodeNames) * len(c08Msgs)
-				if u < nd && !bytes.Equal(m.Raw, c08Msgs[u%len(c08Msgs)]) {
+				if u < nd && u/len(c08Msgs) != 5 && !bytes.Equal(m.Raw, c08Msgs[u%len(c08Msgs)]) {
 					key, detail = "input-aliased", fmt.Sprintf("%s: Raw changed when the caller overwrote its input", c08UseName(u))
 					return
 				}
-				if u < nd {
+				if u < nd && u/len(c08Msgs) != 5 {
 					// absolute check (the fresh twin shares any aliasing bug): after the caller overwrote its input the
 					// decoded content must still be that of the original bytes, and every value must live inside m.Raw
 					want, _ := ref.Parse(c08Msgs[u%len(c08Msgs)])
